@@ -68,6 +68,12 @@ def gen_spec(rng, max_channels=3, max_samples=3, max_bins=4, want=None, simple=F
             rng.shuffle(mods)
             used_types.update(m['type'] for m in mods)
             samples.append({'name': sname, 'data': data, 'modifiers': mods})
+        if not simple and ns >= 2 and rng.random() < 0.15:
+            # an empty bin in one sample (valid: e.g. cancelling MC weights) while its variations / MC-statistical uncertainty stay
+            # non-zero and another sample populates the bin
+            b = rng.randrange(nb); k = rng.randrange(ns)
+            if any(sm['data'][b] >= 5 for j, sm in enumerate(samples) if j != k):
+                samples[k]['data'][b] = 0.0
         rng.shuffle(samples)
         channels.append({'name': cname, 'samples': samples})
     rng.shuffle(channels)
